@@ -2,7 +2,7 @@
 """C08 -- activating and reading arbitrary tags terminates safely (structural clauses)."""
 import ast
 
-from ..model import norm, head, walk_no_nested, AnalysisError, FuncInfo, ClassInfo, enclosing_stmt, ancestors
+from ..model import norm, head, walk_no_nested, AnalysisError, FuncInfo, ClassInfo, enclosing_stmt, ancestors, live
 from ..cfg import cfg_of
 from ..resolve import Resolver, Ctx
 from ..escape import Escape, fmt_chain, items_sorted
@@ -133,11 +133,11 @@ def rule_escape(report, prog, res):
     # Tag.ndef / has_changed shape: None on failed read
     t = prog.func('nfc.tag.Tag.ndef')
     okk = bool(find(t.node, 'ndef = self.NDEF(self)')) and any(isinstance(i, ast.If) and norm(i.test) == 'ndef.has_changed' and
-                                                               [norm(s) for s in i.body] == ['self._ndef = ndef'] for i in ast.walk(t.node))
+                                                               [norm(s) for s in live(i.body)] == ['self._ndef = ndef'] for i in ast.walk(t.node))
     report.check(okk, 'C08-R1', key(t.qname, 'NDEF object is kept only if the first read succeeded'), t.loc(), 'Tag.ndef changed')
     h = prog.func('nfc.tag.Tag.NDEF.has_changed')
     okk = bool(find(h.node, 'ndef_data = self._read_ndef_data()')) and \
-        any(isinstance(i, ast.If) and norm(i.test) == 'ndef_data is None' and [norm(s) for s in i.body] == ['self._tag._ndef = None'] for i in ast.walk(h.node))
+        any(isinstance(i, ast.If) and norm(i.test) == 'ndef_data is None' and [norm(s) for s in live(i.body)] == ['self._tag._ndef = None'] for i in ast.walk(h.node))
     report.check(okk, 'C08-R1', key(h.qname, 'a failed re-read resets tag.ndef to None'), h.loc(), 'has_changed changed')
 
 
@@ -200,7 +200,7 @@ def rule_progress(report, prog):
         report.check(okk, 'C08-R3', key(r.qname, 'NULL/terminator TLV has length -1; value loop is bounded by the 16 bit length'), r.loc(),
                      'read_tlv loop shape changed')
         inner = [l for l in ast.walk(r.node) if isinstance(l, ast.While)]
-        okk = len(inner) == 1 and norm(inner[0].test) == 'offset + i in skip_bytes' and [norm(s) for s in inner[0].body] == ['offset += 1']
+        okk = len(inner) == 1 and norm(inner[0].test) == 'offset + i in skip_bytes' and [norm(s) for s in live(inner[0].body)] == ['offset += 1']
         report.check(okk, 'C08-R3', key(r.qname, 'skip loop terminates (finite skip set, offset strictly increases)'), r.loc(), 'skip loop changed')
     # memory readers: every cycle extends the image or raises
     g = prog.func('nfc.tag.tt2.Type2TagMemoryReader._read_from_tag')
@@ -209,7 +209,7 @@ def rule_progress(report, prog):
     report.check(okk, 'C08-R3', key(g.qname, 'reads 16 byte per cycle until stop'), g.loc(), 'Type 2 memory read loop changed')
     g = prog.func('nfc.tag.tt1.Type1TagMemoryReader._read_from_tag')
     okk = any(isinstance(l, ast.While) and norm(l.test) == 'len(self) < stop' and
-              [norm(s) for s in l.body] == ['data = self._tag.read_segment(len(self) >> 7)', 'self._data_from_tag.extend(data)', 'self._data_in_cache.extend(data)']
+              [norm(s) for s in live(l.body)] == ['data = self._tag.read_segment(len(self) >> 7)', 'self._data_from_tag.extend(data)', 'self._data_in_cache.extend(data)']
               for l in walk_no_nested(g.node))
     rs = prog.func('nfc.tag.tt1.Type1Tag.read_segment')
     okk = okk and any(norm(e) == 'len(rsp) < 129' for e in ast.walk(rs.node) if isinstance(e, ast.Compare)) and bool(find(rs.node, 'return rsp[1:129]'))
